@@ -103,6 +103,30 @@ ONE={
 "C15-A4":("unsync `contains_key` enables the popularity sketch","weigher; capacity/2 crossed by a growing update (which never enables the sketch); popularity later decides an admission"),
 "C15-B4":("creating a sync iterator re-arms the periodic-sync window","> 500 ms since the last maintenance run, < 64 queued ops, cold key inserted into a full cache and read before the next sync"),
 "C17-A4":("sync builder `max_capacity`: `get_or_insert` instead of `insert`","max_capacity applied to a builder that already carries one"),
+"C02-A5":("sync `invalidate`: early return when `contains_key` says the key is not visible","tti; a hit of the key still in the read queue; invalidate while the entry looks idle-expired; the queued hit revives it"),
+"C02-B5":("`set_instant_if_later` takes the lock with `try_write()` and gives up when it fails","invalidate_all coinciding with a reader's read-lock of valid_after: real threads only"),
+"C03-A5":("sync `handle_upsert` subtracts the op's `old_weight` instead of the accounted weight","weigher; a key re-inserted by another thread while maintenance is inside handle_upsert (no switch point): real threads only"),
+"C03-B5":("unsync `remove_expired_wo` sums the released weight in a saturating u32","ttl + weigher; one sweep releasing more than u32::MAX of weight"),
+"C04-A5":("sync stale-op guard uses `try_get().try_unwrap()`","maintenance examines a write op while another thread holds the shard's write lock: real threads only"),
+"C04-B5":("sync `has_enough_capacity` compares with the published `weighted_size()`","several fresh inserts applied by one maintenance run; excess beyond 500 light LRU entries"),
+"C05-A5":("sync update path re-stamps the entry only if the stored last_modified is earlier than the inserter's reading","ttl; inserter preempted between its clock read and the map update while the clock advances and another thread updates the key"),
+"C05-B5":("unsync `Debug` walks the raw map","ttl; `{:?}` after the deadline and before the next purge"),
+"C07-A5":("unsync `invalidate_entries_if` caps the collected keys at 100","more than 100 entries satisfying the predicate"),
+"C07-B5":("unsync `invalidate_all` subtracts the entry count from weighted_size instead of resetting it","weigher with weights > 1; nearly full cache; inserts after invalidate_all"),
+"C08-A5":("unsync `has_enough_capacity`: `candidate <= limit - ws`","weighted_size above max_capacity when a new key arrives (one growth larger than an eviction batch, or huge weights)"),
+"C08-B5":("sync `handle_remove_with_deques` decrements the counters before the is_admitted guard","maintenance paused between applying writes and the expiry step while others invalidate(k), insert(k), invalidate_all()"),
+"C09-A5":("sync `record_read_op`: a hit is pushed with blocking `send()` when the read queue is full","384 queued reads while another thread holds the maintenance flag"),
+"C09-B5":("sync cache without capacity/ttl/tti is built without a housekeeper","unbounded cache without expiry; 385th insert without sync()"),
+"C10-A5":("unsync `invalidate_entries_if` accumulates the invalidated weight in a saturating u32","one call removing more than u32::MAX of weight"),
+"C10-B5":("sync `handle_remove_with_deques` drops the is_admitted guard","three threads: sync paused after the write queue drain; invalidate(k)+insert(k); the fresh entry evictable at once"),
+"C11-A5":("sync maintenance drains at most 64 reads per round","more than 64 hits queued when a sync starts (another thread inside maintenance), then replace/invalidate + one sync()"),
+"C11-B5":("`Deque::drop` forgets its panic guard before dropping the node","a key type whose `Drop` panics"),
+"C12-A5":("sync `Inner::sync` computes the excess before purging expired entries","weigher + ttl/tti; growing update while an expired entry is still unpurged"),
+"C12-B5":("sync `evict_lru_entries` accumulates the evicted weight in a saturating u32","max_capacity > u32::MAX, weights near u32::MAX, two growing updates in one run"),
+"C13-A5":("sync `admit`: `retries >= MAX_CONSECUTIVE_RETRIES`","exactly 5 stale nodes at the LRU front: insert queued, then 5 invalidations, no maintenance in between"),
+"C13-B5":("sync `admit` looks victims up with `try_get`","victim's shard write-locked by another thread during admission: real threads only"),
+"C16-A5":("sync `BaseCache::is_expired_entry` (iterator) skips the write-time check without ttl","no ttl; get and invalidate_all at one clock reading (or racing), then maintenance, then iterate"),
+"C16-B5":("sync `apply_reads` guard compares last_modified instead of last_accessed","tti; two readers whose reads are queued in the opposite order of their clock readings"),
 "C17-B4":("unsync `with_everything` drops zero durations","time_to_live / time_to_idle of exactly 0"),
 }
 rows=[]
@@ -182,7 +206,44 @@ profile (the fault needs more than 128 entries), `C01-A4` by C07 (it needs an
 interleaving). `C14-B4` is, like `C14-B2`, an *unrecorded* lookup, which the
 statement allows ("at most once"), so the silence of C14 is right.
 
+Fifth round (ids ending in `5`, same brief as the third, for the twelve
+properties that had had three rounds). Caught at once: `C02-A5`, `C03-B5`,
+`C04-A5`, `C04-B5`, `C05-B5`, `C07-B5`, `C08-A5`, `C08-B5`, `C09-B5`,
+`C10-A5`, `C12-B5`, `C16-A5`. Strengthened after misses: `C02-B5` (STRESS for
+C07: one thread runs insert; invalidate_all; get; contains_key in a loop beside
+1-4 readers of the same keys), `C03-A5` (STRESS "re-weighing race": writers
+re-insert their keys with changing weights while other threads only call
+sync(); C10 compares the counters, C03 refills the remaining room exactly,
+C04 checks the bound; C03 gained a STRESS engine), `C05-A5`, `C16-B5` (SCHED
+now records the exact clock value every insert / get / invalidate_all read, at
+the switch point that directly follows the library's clock read; C05 and C06
+run in SCHED with exact deadline oracles; the completeness oracle after
+quiescence credits successful gets to the idle timer and runs under C16 through
+an iteration; four litmus programs were added), `C07-A5` (bursts and lookups of
+burst keys in the C07 profile), `C09-A5`, `C11-A5` (SCHED operation "n gets in
+a row", litmus programs that fill the read queue while another thread is paused
+inside a maintenance run), `C12-A5` (the lock-step model follows the
+concurrent cache with ttl/tti as long as every operation is followed by
+sync(): purge of expired entries after the writes, before the excess is
+evicted). New generator mode found useful on the way: "mid" configurations
+(max_capacity 300..2000, first filled with several hundred unit-weight entries,
+weights up to the capacity), with the growing-update allowance of C04 accumulated
+over operations once more residents than one eviction batch exist.
+
 Not caught (or caught only elsewhere), with the reason:
+* `C13-A5` — needs five invalidations still queued behind the newcomer's insert.
+  C13 quantifies over the concurrent cache with maintenance after every
+  operation, where no stale deque node exists; and with six stale nodes the
+  unchanged code itself gives up and rejects, so there is no sharp oracle for
+  "how many stale nodes may be skipped".
+* `C13-B5` — only real threads reach it (a victim's shard is write-locked during
+  admission); outside C13's quantifier, and admission decisions cannot be
+  predicted under uncontrolled threads.
+* `C11-B5` — needs a key type whose destructor panics: a caller's callback
+  panicking is outside C11's quantifier (instrumented types that count and
+  never panic).
+* `C10-B5` — reported by C08 (overflow check inside maintenance fires first),
+  not by C10.
 * `C12-A3`, `C10-B3` — need a second thread to act between two adjacent
   statements inside `evict_lru_entries` / `handle_upsert`, where there is no
   switch point; the authors' own tailored stress needed ~2 million updates for
